@@ -636,7 +636,7 @@ class VariantBase(productmd.common.MetadataBase):
                 continue
             result.append(variant)
             if recursive:
-                result.extend(variant.get_variants(types=[i for i in types if i != "self"], recursive=True))
+                result.extend(variant.get_variants(arch=arch, types=[i for i in types if i != "self"], recursive=True))
 
         result.sort(key=lambda x: x.uid)
         return result
